@@ -36,6 +36,9 @@ type Call struct {
 	Op    string `json:"op"`  // enc | dec
 	Enc   string `json:"enc"` // ttlv | xml | json
 	Reuse bool   `json:"reuse"`
+	// NoClear: the reused encoder is not cleared: the message is appended to what the encoder already holds (binary only);
+	// the header of every message sets the version register before anything gated is written
+	NoClear bool   `json:"noclear"`
 	Input string `json:"input,omitempty"` // hex document for dec
 }
 
@@ -161,7 +164,9 @@ func execCall(c Call, reused map[string]*ttlv.Encoder) (digest string, doc []byt
 		var e ttlv.Encoder
 		if c.Reuse {
 			if pe := reused[c.Enc]; pe != nil {
-				pe.Clear()
+				if !c.NoClear {
+					pe.Clear()
+				}
 				e = *pe
 			} else {
 				e = newEncoder(c.Enc)
@@ -170,8 +175,12 @@ func execCall(c Call, reused map[string]*ttlv.Encoder) (digest string, doc []byt
 		} else {
 			e = newEncoder(c.Enc)
 		}
+		off := 0
+		if c.Reuse && c.NoClear {
+			off = len(e.Bytes())
+		}
 		e.Any(buildMsg(c.Msg, c.Ver))
-		doc = append([]byte(nil), e.Bytes()...)
+		doc = append([]byte(nil), e.Bytes()[off:]...)
 		h := sha256.Sum256(doc)
 		return hex.EncodeToString(h[:8]), doc, nil
 	case "dec":
